@@ -194,3 +194,38 @@ func PointWithY(y *big.Int) (Pt, bool) {
 	}
 	return Pt{X: x, Y: yy}, true
 }
+
+// Recover is textbook ECDSA public-key recovery: Q = r^-1 (s*R - z*G) with R the point of abscissa
+// r (+ n when recid bit 1 is set; must stay below p) and ordinate parity = recid bit 0.
+// ok=false when r, s are out of [1, n-1], the abscissa is not on the curve, or Q is the identity.
+func Recover(r, s, z *big.Int, recid int) (Pt, bool) {
+	if r.Sign() <= 0 || r.Cmp(N) >= 0 || s.Sign() <= 0 || s.Cmp(N) >= 0 {
+		return Infinity, false
+	}
+	x := new(big.Int).Set(r)
+	if recid&2 != 0 {
+		x.Add(x, N)
+		if x.Cmp(P) >= 0 {
+			return Infinity, false
+		}
+	}
+	R, ok := LiftX(x, recid&1 != 0)
+	if !ok {
+		return Infinity, false
+	}
+	rinv := new(big.Int).ModInverse(r, N)
+	u1 := new(big.Int).Mul(rinv, new(big.Int).Mod(z, N))
+	u1.Mod(u1, N)
+	u1.Sub(N, u1)
+	u1.Mod(u1, N)
+	u2 := new(big.Int).Mul(rinv, s)
+	u2.Mod(u2, N)
+	q := Add(Mul(u2, R), Mul(u1, G))
+	if q.Inf {
+		return Infinity, false
+	}
+	return q, true
+}
+
+// PminusN is p - n: signatures with r below it have a second reading x = r + n (recovery ids 2, 3).
+var PminusN = new(big.Int).Sub(P, N)
